@@ -45,7 +45,6 @@ def batches(ctx):
                         "ORDERED": "TRUE" if ordered else "FALSE", "TOPOS": tla_set(topos), "BIGTOPOS": tla_set(big)})
     if ctx.quick:
         return [
-            b("topo M=2 2x2", ["topo"], names=("N1", "N2"), keys=("K1", "K2"), m=2),
             b("kind", ["kind"], topos=["line3", "line4", "rollover", "shared", "loop", "akidtrap", "badsig"],
               big=["rollover4"]),
             b("window+name", ["window", "name"], topos=["line3", "rollover", "badsig", "shared"]),
@@ -53,8 +52,6 @@ def batches(ctx):
             b("keyid", ["keyid"], topos=["line3", "akidtrap"]),
         ]
     return [
-        b("topo M=2 3x3", ["topo"], names=("N1", "N2", "N3"), keys=("K1", "K2", "K3"), m=2),
-        b("topo M=3 2x2", ["topo"], names=("N1", "N2"), keys=("K1", "K2"), m=3),
         b("kind", ["kind"], topos=ALL_TOPOS, big=BIG_TOPOS),
         b("window", ["window"], topos=ALL_TOPOS),
         b("name", ["name"], topos=["line3", "badsig"], big=["cross"]),
@@ -220,6 +217,38 @@ def reproduce(ctx, binary, path, body=None):
     return bool(case.get("context")) and attempt(case["context"] + case["cases"])
 
 
+def mc_batches(ctx):
+    """(label, names, keys, M) of the model-checking runs of ChainBuilderMC.tla (U1: B => A over every PKI)."""
+    if ctx.quick:
+        return [("MC M<=2 2x2", ("N1", "N2"), ("K1", "K2"), 2)]
+    return [("MC M<=2 3x3", ("N1", "N2", "N3"), ("K1", "K2", "K3"), 2),
+            ("MC M<=3 2x2", ("N1", "N2"), ("K1", "K2"), 3)]
+
+
+def gen_mc(ctx, label, tag, names, keys, m):
+    """Model-check B => A on every PKI of the universe; the states TLC printed are the cases to replay."""
+    U, C, O = files(ctx, tag)
+    r = pkvlib.tlc(ctx, "ChainBuilderMC", "ChainBuilder_mc.cfg", workers=max(2, ctx.workers // 2), timeout=6000,
+                   expect_ok=False, label="B=>A " + label,
+                   subst={"NAMES": tla_set(names), "KEYS": tla_set(keys), "M": m, "OUTU": os.path.basename(U)})
+    if r.violated:
+        # a design-level result about the B model, never a verdict about the code; the cases printed so far are
+        # still replayed and judged by the A layer
+        raise Machinery("ChainBuilderMC %s: the B model violates %s (B layer out of date?):\n%s"
+                        % (label, r.violated, "\n".join(r.out.splitlines()[-40:])))
+    if r.rc != 0:
+        raise Machinery("TLC failed on ChainBuilderMC %s:\n%s" % (label, "\n".join(r.out.splitlines()[-30:])))
+    cases = [json.loads(json.loads(l)) for l in r.out.splitlines() if l.startswith('"{')]
+    if len(cases) != r.distinct or not cases:
+        raise Machinery("ChainBuilderMC %s printed %d states, TLC reports %d distinct" % (label, len(cases), r.distinct))
+    nontriv = sum(1 for c in cases if c.pop("nontrivial"))
+    bnonempty = sum(1 for c in cases if c.pop("bchains"))
+    if bnonempty == 0 or bnonempty == len(cases):
+        raise Machinery("ChainBuilderMC %s is vacuous: B returns chains in %d of %d PKIs" % (label, bnonempty, len(cases)))
+    write_ndjson(C, cases)
+    return len(cases), len(read_ndjson(U)), nontriv, bnonempty
+
+
 def gen(ctx, label, tag, subst):
     U, C, O = files(ctx, tag)
     subst = dict(subst, OUTU=os.path.basename(U), OUTC=os.path.basename(C))
@@ -235,10 +264,13 @@ def run(ctx):
     binary = ctx.gobuild("c07")
     ctx.specfile("x")  # copy the specs before any worker thread starts
 
-    def pipeline(k, label, subst):
+    def pipeline(k, label, subst, mc=None):
         def job():
             tag = "b%d" % k
-            ncases, ncerts, nontriv, bnonempty = gen(ctx, label, tag, subst)
+            if mc:
+                ncases, ncerts, nontriv, bnonempty = gen_mc(ctx, label, tag, *mc)
+            else:
+                ncases, ncerts, nontriv, bnonempty = gen(ctx, label, tag, subst)
             ctx.log("%s: %d cases over %d certificates, %d non-trivial, B model returns chains in %d" %
                     (label, ncases, ncerts, nontriv, bnonempty))
             out = process(ctx, binary, label, tag)
@@ -260,7 +292,8 @@ def run(ctx):
     def zero_job():
         return zero_time(ctx, binary)
 
-    jobs = [pipeline(k, label, subst) for k, (label, subst) in enumerate(batches(ctx))] + [random_job, zero_job]
+    jobs = [pipeline(100 + k, label, None, mc=(names, keys, m)) for k, (label, names, keys, m) in enumerate(mc_batches(ctx))]
+    jobs += [pipeline(k, label, subst) for k, (label, subst) in enumerate(batches(ctx))] + [random_job, zero_job]
     results = pkvlib.par(ctx, jobs)
     cands = []
     for out in results:
